@@ -1190,7 +1190,13 @@ func (r condition) string() string {
 	// begin default presentation
 	// handler ...
 	var raw string
-	if meth := getStringer(r.ex); meth != nil {
+	if Xs, ok := stackTypeAliasConverter(r.ex); ok {
+		// Stack or Stack type alias, whether or not
+		// the alias extends its own String method
+		raw = Xs.String()
+	} else if Xc, ok := conditionTypeAliasConverter(r.ex); ok {
+		raw = Xc.String()
+	} else if meth := getStringer(r.ex); meth != nil {
 		raw = meth()
 	} else {
 		raw = primitiveStringer(r.ex)
